@@ -26,6 +26,62 @@ KIND_DEF = {
 ITERATIVE = {"CG", "GMRES"}
 
 
+def gram_range(idx, rep, rule, construct, te):
+    """normal-equation pseudo-inverse on an iterative solver: the solver is applied to a Gram matrix G, and the vector it is applied
+    to must lie in range(G).  inv(A^H A) A^H b always does (range(A^H) = range(A^H A)); A^H inv(A A^H) b needs b in range(A), i.e.
+    full row rank, so that form is admissible only on a branch that excludes tall operators (rows > columns)."""
+    fi = rule.func
+    a = rule.params[0][0]
+    A = sym(a)
+    inner, outer = norm(MUL(H(A), A)), norm(MUL(A, H(A)))
+    solver = [c for c in df.calls(fi.node) if nospace(c.func).endswith("IterativeOperatorWInfo") and c.args]
+    if not solver:
+        rep.undecided("gram-range", construct, "no iterative inverse of a Gram matrix found")
+        return
+
+    def specialise(e, pol):
+        """e with every conditional expression on the rows-vs-columns test replaced by the branch taken when `rows < cols` is pol"""
+        e = df.resolve_value(fi.node, e)
+        if isinstance(e, ast.IfExp):
+            t, p = df.normalise_test(df.resolve_value(fi.node, e.test))
+            if isinstance(t, ast.Compare) and len(t.ops) == 1 and ".shape" in nospace(t):
+                l, r = nospace(t.left).replace("[-2]", "[0]").replace("[-1]", "[1]"), nospace(t.comparators[0]).replace("[-2]", "[0]").replace("[-1]", "[1]")
+                op = t.ops[0]
+                rows_lt_cols = None
+                if l == f"{a}.shape[0]" and r == f"{a}.shape[1]":
+                    rows_lt_cols = {ast.Lt: "lt", ast.LtE: "le", ast.Gt: "gt", ast.GtE: "ge"}.get(type(op))
+                elif l == f"{a}.shape[1]" and r == f"{a}.shape[0]":
+                    rows_lt_cols = {ast.Lt: "gt", ast.LtE: "ge", ast.Gt: "lt", ast.GtE: "le"}.get(type(op))
+                if rows_lt_cols is not None:
+                    # value of the (positive-polarity) test on a strictly wide (pol=True) / strictly tall (pol=False) operator
+                    val = {"lt": pol, "le": pol, "gt": not pol, "ge": not pol}[rows_lt_cols]
+                    if not p:
+                        val = not val
+                    return specialise(e.body if val else e.orelse, pol)
+            return None
+        return e
+
+    for shape_name, pol in (("wide (rows < columns)", True), ("tall (rows > columns)", False)):
+        g = specialise(solver[0].args[0], pol)
+        if g is None:
+            rep.undecided("gram-range", f"{construct}:{'wide' if pol else 'tall'}", "Gram matrix chosen by a condition that is not a rows/columns comparison")
+            continue
+        gt = norm(te.eval_in(fi, g))
+        loc = [idx.loc(fi.module, solver[0])]
+        if gt == inner:
+            rep.proved("gram-range", f"{construct}:{'wide' if pol else 'tall'}", f"{shape_name}: the solver runs on H({a})·{a}; the vector H({a}) b it is applied to lies in its range for every {a}", locs=loc)
+        elif gt == outer:
+            rep.decide(True if pol else False, "gram-range", f"{construct}:{'wide' if pol else 'tall'}", f"{shape_name}: the solver runs on {a}·H({a})" + ("; b lies in its range when the rows are independent" if pol else
+                       f", which is singular for a tall {a}; the right-hand side b is in general not in range({a}), so the iterative solve diverges instead of returning the least-squares solution"),
+                       detail="" if pol else "outer-gram", locs=loc)
+        else:
+            rep.undecided("gram-range", f"{construct}:{'wide' if pol else 'tall'}", f"{shape_name}: the solver runs on {show(gt)}", locs=loc)
+
+
+def nospace(n):
+    return ast.unparse(n).replace(" ", "")
+
+
 def check_inverse_rules(idx, rep, res, fname, pseudo=False):
     rules = res.rules_of(fname)
     if not rules:
@@ -68,6 +124,7 @@ def check_inverse_rules(idx, rep, res, fname, pseudo=False):
                 continue
             if pseudo and "CG" in algs:
                 rep.note(f"{construct}: regularised normal equations on purpose ((inv(A^H A) + eps I) A^H); no exact-algebra obligation")
+                gram_range(idx, rep, rule, construct, te)
                 continue
             want = INV(sym(a))
             ok = equal(t, want, frozenset(hyp), d2)
